@@ -536,11 +536,37 @@ func genCase(t *rapid.T) Case {
 	c.Kind = kind
 	switch kind {
 	case "cnf":
-		switch rapid.IntRange(0, 3).Draw(t, "family") {
-		case 3: // binary-clause cliques: what -cp rewrites into cardinality constraints before solving
+		switch rapid.IntRange(0, 5).Draw(t, "family") {
+		case 3, 4, 5: // binary-clause cliques: what -cp rewrites into cardinality constraints before solving
 			c.N = gen.Uniform(t, 3, 10, "n")
 			c.Clauses, _ = gen.CliqueRich(t, c.N)
-			c.Flags = append([]string{}, rapid.SampledFrom([][]string{{"-cp"}, {"-cp"}, {"-cp", "-verbose"}, {}, {"-count"}, {"-mus"}}).Draw(t, "cliqueFlags")...)
+			if rapid.Bool().Draw(t, "tension") {
+				// clauses asking for the literals that the binary clauses exclude pairwise: every binary clause matters
+				var pool []int
+				for _, cl := range c.Clauses {
+					if len(cl) == 2 {
+						pool = append(pool, -cl[0], -cl[1])
+					}
+				}
+				for i, k := 0, gen.Uniform(t, 2, c.N, "asks"); i < k && len(pool) > 0; i++ {
+					var cl []int
+					for j, ln := 0, gen.Uniform(t, 1, 3, "asklen"); j < ln; j++ {
+						l := pool[gen.Uniform(t, 0, len(pool)-1, "ask")]
+						dup := false
+						for _, x := range cl {
+							if x == l || x == -l {
+								dup = true
+							}
+						}
+						if !dup {
+							cl = append(cl, l)
+						}
+					}
+					c.Clauses = append(c.Clauses, cl)
+				}
+				c.Clauses = rapid.Permutation(c.Clauses).Draw(t, "order2")
+			}
+			c.Flags = append([]string{}, rapid.SampledFrom([][]string{{"-cp"}, {"-cp"}, {"-cp"}, {"-cp", "-verbose"}, {}, {"-count"}, {"-mus"}}).Draw(t, "cliqueFlags")...)
 			return c
 		case 0:
 			c.N, c.Clauses = gen.SmallCNF(t, gen.CNFOpts{MinN: 1, MaxN: 10, MaxRatio: 4, MaxLen: 4, AllowEmpty: true, AllowDup: true, AllowUnit: true, UnusedVarSlack: true})
@@ -649,7 +675,7 @@ func TestMain(m *testing.M) {
 }
 
 func init() {
-	vf.Register(vf.Sub[Case]{Name: "cli", Quick: 400, Thorough: 6000, Gen: genCase, Check: check, Floor: 0.5,
+	vf.Register(vf.Sub[Case]{Name: "cli", Quick: 700, Thorough: 6000, Gen: genCase, Check: check, Floor: 0.5,
 		Classes: map[string]float64{"kind-cnf": 0.05, "kind-opb": 0.05, "kind-wcnf": 0.05, "kind-bf": 0.05, "flag-count": 0.05, "flag-certified": 0.03, "flag-mus": 0.03, "flag-cp": 0.05, "flag-verbose": 0.05},
 		Rule:    "the executable is built from the tree and run on generated .cnf (odd clause shapes, 3-SAT, pigeonhole, clique-rich formulas mostly run with -cp), .opb (with/without objective of either sign; knapsack equalities over 15..18 variables mostly run with -cp), .wcnf and .bf files (conventional layout, n<=10; one in eight .cnf/.opb/.wcnf files holds a comment line of 100 to 70 000 bytes made of words and numbers, as first, second or last line) x flag sets {none, -verbose, -cp, -count, -verbose -count, -cp -verbose, -certified, -certified -verbose, -mus} (-certified is not combined with -cp: a RUP certificate cannot express the PB constraints that strategy learns, and the property lists the flags separately), plus unreadable paths, an unknown suffix and syntactically broken files; stdout is parsed: exactly one status line, the v line is a total model of the file, 's UNSATISFIABLE' only for unsatisfiable files, o lines strictly decreasing and ending in the brute-force optimum attained by the printed model, -count prints exactly the model count, the -certified lines replay as a RUP refutation, the -mus DIMACS block is a minimal unsatisfiable sub-multiset of the file; -verbose only adds comment lines; bad files: exit status != 0 and no answer line; non-trivial = file with >=2 constraints (or formula of size >=4, count >=2, an extracted MUS, a bad file)"})
 }
